@@ -48,11 +48,13 @@ type inlineSite struct {
 }
 
 type normaliser struct {
-	pk    *packages.Package
-	fset  *token.FileSet
-	src   map[string][]byte
-	sites map[string][]*inlineSite // by file
-	seq   int
+	lastSubsts []*inlineSite
+	extra      map[string][]*inlineSite // substitutions active while one helper body is being rendered
+	pk         *packages.Package
+	fset       *token.FileSet
+	src        map[string][]byte
+	sites      map[string][]*inlineSite // by file
+	seq        int
 }
 
 func (n *normaliser) off(p token.Pos) int { return n.fset.Position(p).Offset }
@@ -65,6 +67,11 @@ func (n *normaliser) srcOf(file string, s, e token.Pos) string {
 func (n *normaliser) render(file string, s, e int) (string, bool) {
 	var inner []*inlineSite
 	for _, st := range n.sites[file] {
+		if st.s >= s && st.e <= e {
+			inner = append(inner, st)
+		}
+	}
+	for _, st := range n.extra[file] {
 		if st.s >= s && st.e <= e {
 			inner = append(inner, st)
 		}
@@ -109,7 +116,7 @@ func normalise(pkgs []*packages.Package, overlay map[string][]byte, readFile fun
 		if !isProdPath(pk.PkgPath) || pk.TypesInfo == nil {
 			continue
 		}
-		n := &normaliser{pk: pk, fset: pk.Fset, src: map[string][]byte{}, sites: map[string][]*inlineSite{}}
+		n := &normaliser{pk: pk, fset: pk.Fset, src: map[string][]byte{}, sites: map[string][]*inlineSite{}, extra: map[string][]*inlineSite{}}
 		fileOf := map[*ast.File]string{}
 		parent := map[ast.Node]ast.Node{}
 		for _, f := range pk.Syntax {
@@ -135,6 +142,12 @@ func normalise(pkgs []*packages.Package, overlay map[string][]byte, readFile fun
 				stack = append(stack, nd)
 				return true
 			})
+		}
+		keepImports := map[string]map[string]bool{}   // file → import paths the bodies inlined into it use
+		needImports := map[string]map[string]string{} // file → local name → path (for helper bodies moved in from another file)
+		pkgClauseEnd := map[string]int{}
+		for f, fn := range fileOf {
+			pkgClauseEnd[fn] = n.off(f.Name.End())
 		}
 		var cands []*nHelper
 		for f, fn := range fileOf {
@@ -166,9 +179,39 @@ func normalise(pkgs []*packages.Package, overlay map[string][]byte, readFile fun
 						if sel, isSel := parent[id].(*ast.SelectorExpr); isSel && sel.Sel == id {
 							fun = sel
 						}
+						if keepImports[fn] == nil {
+							keepImports[fn] = map[string]bool{}
+						}
+						ast.Inspect(h.decl, func(x ast.Node) bool {
+							if xi, isI := x.(*ast.Ident); isI {
+								if pn, isP := pk.TypesInfo.Uses[xi].(*types.PkgName); isP {
+									keepImports[fn][pn.Imported().Path()] = true
+								}
+							}
+							return true
+						})
+						if fn != h.file {
+							missing, okI := importsNeeded(pk, h.decl, f)
+							if !okI {
+								ok = false
+								return true
+							}
+							for nm, path := range missing {
+								if needImports[fn] == nil {
+									needImports[fn] = map[string]string{}
+								}
+								needImports[fn][nm] = path
+							}
+						}
 						call, isCall := parent[fun].(*ast.CallExpr)
-						if !isCall || call.Fun != fun.(ast.Expr) || (fn != h.file && !importsSuffice(pk, h.decl, f)) {
-							ok = false
+						if !isCall || call.Fun != fun.(ast.Expr) {
+							// used as a value (a callback handed on): it becomes the function literal it stands for
+							st := n.valueSite(h, fun.(ast.Expr), fn)
+							if st == nil {
+								ok = false
+								return true
+							}
+							sites = append(sites, st)
 							return true
 						}
 						sts := n.site(h, call, fn, parent)
@@ -197,6 +240,86 @@ func normalise(pkgs []*packages.Package, overlay map[string][]byte, readFile fun
 			}
 			inlined = append(inlined, name)
 		}
+		// an import that only deleted helper declarations used must go with them
+		for f, fn := range fileOf {
+			var gone [][2]int
+			for _, st := range n.sites[fn] {
+				if st.e > st.s {
+					if t, ok := st.text(); ok && t == "" {
+						gone = append(gone, [2]int{st.s, st.e})
+					}
+				}
+			}
+			if len(gone) == 0 {
+				continue
+			}
+			used := map[string]bool{}
+			ast.Inspect(f, func(nd ast.Node) bool {
+				id, isID := nd.(*ast.Ident)
+				if !isID {
+					return true
+				}
+				pn, isPkg := pk.TypesInfo.Uses[id].(*types.PkgName)
+				if !isPkg {
+					return true
+				}
+				o := n.off(id.Pos())
+				for _, g := range gone {
+					if o >= g[0] && o < g[1] {
+						return true
+					}
+				}
+				used[pn.Imported().Path()] = true
+				return true
+			})
+			for path := range keepImports[fn] {
+				used[path] = true
+			}
+			for _, d := range f.Decls {
+				gd, isG := d.(*ast.GenDecl)
+				if !isG || gd.Tok != token.IMPORT {
+					continue
+				}
+				var drop []*ast.ImportSpec
+				for _, sp := range gd.Specs {
+					is := sp.(*ast.ImportSpec)
+					path := strings.Trim(is.Path.Value, "\"")
+					if is.Name != nil && (is.Name.Name == "_" || is.Name.Name == ".") {
+						continue
+					}
+					if !used[path] {
+						drop = append(drop, is)
+					}
+				}
+				if len(drop) == 0 {
+					continue
+				}
+				if len(drop) == len(gd.Specs) {
+					n.sites[fn] = append(n.sites[fn], &inlineSite{file: fn, s: n.off(gd.Pos()), e: n.off(gd.End()), text: func() (string, bool) { return "", true }})
+					continue
+				}
+				for _, is := range drop {
+					n.sites[fn] = append(n.sites[fn], &inlineSite{file: fn, s: n.off(is.Pos()), e: n.off(is.End()), text: func() (string, bool) { return "", true }})
+				}
+			}
+		}
+		for file, imps := range needImports {
+			if len(n.sites[file]) == 0 {
+				continue
+			}
+			var names []string
+			for nm := range imps {
+				names = append(names, nm)
+			}
+			sort.Strings(names)
+			text := "\n"
+			for _, nm := range names {
+				text += fmt.Sprintf("import %s %q\n", nm, imps[nm])
+			}
+			at := pkgClauseEnd[file]
+			t := text
+			n.sites[file] = append(n.sites[file], &inlineSite{file: file, s: at, e: at, text: func() (string, bool) { return t, true }})
+		}
 		for file := range n.sites {
 			t, ok := n.render(file, 0, len(n.src[file]))
 			if !ok {
@@ -213,6 +336,9 @@ func normalise(pkgs []*packages.Package, overlay map[string][]byte, readFile fun
 func helperInlinable(fd *ast.FuncDecl) bool {
 	if fd.Type.TypeParams != nil {
 		return false
+	}
+	if isMembershipDecl(fd) {
+		return false // stays a call: the analyser reads it as the membership test it is (isContainsHelper)
 	}
 	if fd.Type.Results != nil {
 		for _, r := range fd.Type.Results.List {
@@ -276,7 +402,7 @@ func inList(p ast.Node) bool {
 }
 
 // site plans the expansion of one call of helper h (one or two replacement sites; nil: not supported).
-func (n *normaliser) site(h *nHelper, call *ast.CallExpr, cf string, parent map[ast.Node]ast.Node) []*inlineSite {
+func (n *normaliser) siteRaw(h *nHelper, call *ast.CallExpr, cf string, parent map[ast.Node]ast.Node) []*inlineSite {
 	pk, file := n.pk, h.file // file: where the helper's text lives; cf: the file of the call
 	nRes := 0
 	if h.decl.Type.Results != nil {
@@ -406,6 +532,54 @@ func (n *normaliser) site(h *nHelper, call *ast.CallExpr, cf string, parent map[
 		return ok && id.Name == param && !assigned[param]
 	}
 	var bNames, bArgs, bTypes []string
+	// a never-assigned parameter whose argument is a plain identifier or a constant is replaced by that
+	// argument wherever the body uses it (no copy is made: the rules see the caller's own value)
+	var substs []*inlineSite
+	defer func() { n.lastSubsts = substs }()
+	declared := map[string]bool{}
+	ast.Inspect(h.decl.Body, func(nd ast.Node) bool {
+		if id, ok := nd.(*ast.Ident); ok && pk.TypesInfo.Defs[id] != nil {
+			declared[id.Name] = true
+		}
+		return true
+	})
+	paramNames := map[string]bool{}
+	for _, p := range h.decl.Type.Params.List {
+		for _, nm := range p.Names {
+			paramNames[nm.Name] = true
+		}
+	}
+	substitutable := func(param *ast.Ident, typ string, arg ast.Expr) bool {
+		if assigned[param.Name] {
+			return false
+		}
+		text := ""
+		if id, ok := arg.(*ast.Ident); ok {
+			if id.Name != param.Name && (declared[id.Name] || paramNames[id.Name]) {
+				return false
+			}
+			text = id.Name
+			if tv, okT := pk.TypesInfo.Types[arg]; okT && (tv.Value != nil || tv.IsNil()) && typ != "" {
+				text = "(" + typ + ")(" + id.Name + ")"
+			}
+		} else if tv, okT := pk.TypesInfo.Types[arg]; okT && tv.Value != nil && typ != "" {
+			text = "(" + typ + ")(" + n.srcOf(cf, arg.Pos(), arg.End()) + ")"
+		} else {
+			return false
+		}
+		obj := pk.TypesInfo.Defs[param]
+		if obj == nil {
+			return false
+		}
+		ast.Inspect(h.decl.Body, func(nd ast.Node) bool {
+			if id, ok := nd.(*ast.Ident); ok && pk.TypesInfo.Uses[id] == obj {
+				t := text
+				substs = append(substs, &inlineSite{file: file, s: n.off(id.Pos()), e: n.off(id.End()), text: func() (string, bool) { return t, true }})
+			}
+			return true
+		})
+		return true
+	}
 	if h.decl.Recv != nil {
 		sel, ok := call.Fun.(*ast.SelectorExpr)
 		if !ok {
@@ -416,11 +590,29 @@ func (n *normaliser) site(h *nHelper, call *ast.CallExpr, cf string, parent map[
 		if !okT || recvObj == nil || !types.Identical(rt.Type, recvObj.Type()) {
 			return nil
 		}
-		if rn := h.decl.Recv.List[0].Names[0].Name; !sameName(rn, sel.X) {
-			bNames, bArgs, bTypes = append(bNames, rn), append(bArgs, n.srcOf(cf, sel.X.Pos(), sel.X.End())), append(bTypes, "")
+		if rn := h.decl.Recv.List[0].Names[0]; !sameName(rn.Name, sel.X) && !substitutable(rn, "", sel.X) {
+			bNames, bArgs, bTypes = append(bNames, rn.Name), append(bArgs, n.srcOf(cf, sel.X.Pos(), sel.X.End())), append(bTypes, "")
 		}
 	} else if _, isID := call.Fun.(*ast.Ident); !isID {
 		return nil
+	}
+	nParams := 0
+	for _, p := range h.decl.Type.Params.List {
+		if len(p.Names) == 0 {
+			nParams++
+		}
+		nParams += len(p.Names)
+	}
+	spread := "" // h(g()) with g returning the n values: one multi-value binding
+	if len(call.Args) == 1 && nParams > 1 {
+		if tv, ok := pk.TypesInfo.Types[call.Args[0]]; ok {
+			if tup, isT := tv.Type.(*types.Tuple); isT && tup.Len() == nParams {
+				spread = n.srcOf(cf, call.Args[0].Pos(), call.Args[0].End())
+			}
+		}
+		if spread == "" {
+			return nil
+		}
 	}
 	ai := 0
 	for _, p := range h.decl.Type.Params.List {
@@ -429,10 +621,19 @@ func (n *normaliser) site(h *nHelper, call *ast.CallExpr, cf string, parent map[
 			continue
 		}
 		for _, nm := range p.Names {
+			if spread != "" {
+				if nm.Name != "_" {
+					bNames = append(bNames, nm.Name)
+					bArgs = append(bArgs, fmt.Sprintf("\x00%d", ai)) // filled from the multi-value binding
+					bTypes = append(bTypes, "")
+				}
+				ai++
+				continue
+			}
 			if ai >= len(call.Args) {
 				return nil
 			}
-			if nm.Name != "_" && !sameName(nm.Name, call.Args[ai]) {
+			if nm.Name != "_" && !sameName(nm.Name, call.Args[ai]) && !substitutable(nm, n.srcOf(file, p.Type.Pos(), p.Type.End()), call.Args[ai]) {
 				bNames = append(bNames, nm.Name)
 				bArgs = append(bArgs, n.srcOf(cf, call.Args[ai].Pos(), call.Args[ai].End()))
 				bTypes = append(bTypes, n.srcOf(file, p.Type.Pos(), p.Type.End()))
@@ -440,7 +641,7 @@ func (n *normaliser) site(h *nHelper, call *ast.CallExpr, cf string, parent map[
 			ai++
 		}
 	}
-	if ai != len(call.Args) {
+	if spread == "" && ai != len(call.Args) {
 		return nil
 	}
 	var resTypes []string
@@ -455,6 +656,22 @@ func (n *normaliser) site(h *nHelper, call *ast.CallExpr, cf string, parent map[
 	// pre: temporaries for the arguments (outer scope); in: the parameter names (inner scope)
 	bindings := func() (pre, in string) {
 		var p, i strings.Builder
+		if spread != "" {
+			var tmps []string
+			for k := 0; k < nParams; k++ {
+				tmps = append(tmps, fmt.Sprintf("inl%dS%d", id, k))
+			}
+			fmt.Fprintf(&p, "%s := %s\n", strings.Join(tmps, ", "), spread)
+			for _, t := range tmps {
+				fmt.Fprintf(&p, "_ = %s\n", t)
+			}
+			for k := range bNames {
+				var pos int
+				fmt.Sscanf(bArgs[k], "\x00%d", &pos)
+				fmt.Fprintf(&i, "%s := inl%dS%d\n_ = %s\n", bNames[k], id, pos, bNames[k])
+			}
+			return p.String(), i.String()
+		}
 		for k := range bNames {
 			if bTypes[k] == "" {
 				fmt.Fprintf(&p, "inl%dA%d := %s\n", id, k, bArgs[k])
@@ -736,22 +953,31 @@ func (n *normaliser) site(h *nHelper, call *ast.CallExpr, cf string, parent map[
 	return nil
 }
 
-// importsSuffice: every package the helper's body names is imported, under the same name, by the file f.
-func importsSuffice(pk *packages.Package, h *ast.FuncDecl, f *ast.File) bool {
+// importsNeeded: the packages the helper's body and signature name that file f does not import under the same
+// name (ok is false when f uses one of those names for something else).
+func importsNeeded(pk *packages.Package, h *ast.FuncDecl, f *ast.File) (missing map[string]string, ok bool) {
 	have := map[string]string{} // local name → path
 	for _, im := range f.Imports {
 		path := strings.Trim(im.Path.Value, "\"")
 		name := path[strings.LastIndex(path, "/")+1:]
+		if pkn, isP := pk.TypesInfo.Implicits[im].(*types.PkgName); isP {
+			name = pkn.Name()
+		}
 		if im.Name != nil {
 			name = im.Name.Name
 		}
 		have[name] = path
 	}
-	ok := true
+	missing = map[string]string{}
+	ok = true
 	check := func(nd ast.Node) bool {
 		if id, isID := nd.(*ast.Ident); isID {
 			if pn, isPkg := pk.TypesInfo.Uses[id].(*types.PkgName); isPkg {
-				if have[id.Name] != pn.Imported().Path() {
+				switch have[id.Name] {
+				case pn.Imported().Path():
+				case "":
+					missing[id.Name] = pn.Imported().Path()
+				default:
 					ok = false
 				}
 			}
@@ -760,5 +986,116 @@ func importsSuffice(pk *packages.Package, h *ast.FuncDecl, f *ast.File) bool {
 	}
 	ast.Inspect(h.Body, check)
 	ast.Inspect(h.Type, check)
-	return ok
+	return
+}
+
+// site plans the expansion of one call and arranges for the parameter substitutions of that call to be active
+// while (and only while) its replacement text is rendered.
+func (n *normaliser) site(h *nHelper, call *ast.CallExpr, cf string, parent map[ast.Node]ast.Node) []*inlineSite {
+	n.lastSubsts = nil
+	sites := n.siteRaw(h, call, cf, parent)
+	substs := n.lastSubsts
+	if len(substs) == 0 {
+		return sites
+	}
+	file := h.file
+	for _, st := range sites {
+		inner := st.text
+		st.text = func() (string, bool) {
+			saved := n.extra[file]
+			n.extra[file] = append(append([]*inlineSite{}, saved...), substs...)
+			defer func() { n.extra[file] = saved }()
+			return inner()
+		}
+	}
+	return sites
+}
+
+// valueSite: the helper used as a value (passed on as a callback, stored) becomes the function literal it stands
+// for. A method value is supported when its receiver expression is the identifier the method itself uses.
+func (n *normaliser) valueSite(h *nHelper, use ast.Expr, cf string) *inlineSite {
+	file := h.file
+	if h.decl.Recv != nil {
+		sel, ok := use.(*ast.SelectorExpr)
+		if !ok {
+			return nil
+		}
+		id, isID := sel.X.(*ast.Ident)
+		if !isID || id.Name != h.decl.Recv.List[0].Names[0].Name {
+			return nil
+		}
+		rt, okT := n.pk.TypesInfo.Types[sel.X]
+		recvObj := n.pk.TypesInfo.Defs[h.decl.Recv.List[0].Names[0]]
+		if !okT || recvObj == nil || !types.Identical(rt.Type, recvObj.Type()) {
+			return nil
+		}
+	} else if _, isID := use.(*ast.Ident); !isID {
+		return nil
+	}
+	return &inlineSite{file: cf, s: n.off(use.Pos()), e: n.off(use.End()), text: func() (string, bool) {
+		sig := n.srcOf(file, h.decl.Type.Params.Pos(), h.decl.Type.Params.End())
+		res := ""
+		if h.decl.Type.Results != nil {
+			res = " " + n.srcOf(file, h.decl.Type.Results.Pos(), h.decl.Type.Results.End())
+		}
+		body, ok := n.render(file, n.off(h.decl.Body.Lbrace), n.off(h.decl.Body.Rbrace)+1)
+		if !ok {
+			return "", false
+		}
+		return "func" + sig + res + " " + body, true
+	}}
+}
+
+// isMembershipDecl: func(list []T, x T) bool { for _, e := range list { if e == x { return true } }; return false }
+// (the hand-written replacement of funk.Contains). The SSA-level twin, isContainsHelper, is what the rules trust;
+// this one only decides that the helper is not inlined.
+func isMembershipDecl(fd *ast.FuncDecl) bool {
+	if fd.Recv != nil || fd.Type.Results == nil || len(fd.Type.Results.List) != 1 || fd.Body == nil || len(fd.Body.List) != 2 {
+		return false
+	}
+	if id, ok := fd.Type.Results.List[0].Type.(*ast.Ident); !ok || id.Name != "bool" {
+		return false
+	}
+	var params []string
+	for _, f := range fd.Type.Params.List {
+		for _, nm := range f.Names {
+			params = append(params, nm.Name)
+		}
+	}
+	if len(params) != 2 {
+		return false
+	}
+	rs, ok := fd.Body.List[0].(*ast.RangeStmt)
+	if !ok || rs.Value == nil || len(rs.Body.List) != 1 {
+		return false
+	}
+	if x, isID := rs.X.(*ast.Ident); !isID || x.Name != params[0] {
+		return false
+	}
+	val, isID := rs.Value.(*ast.Ident)
+	if !isID {
+		return false
+	}
+	iff, ok := rs.Body.List[0].(*ast.IfStmt)
+	if !ok || iff.Init != nil || iff.Else != nil || len(iff.Body.List) != 1 {
+		return false
+	}
+	be, ok := iff.Cond.(*ast.BinaryExpr)
+	if !ok || be.Op != token.EQL {
+		return false
+	}
+	l, lok := be.X.(*ast.Ident)
+	r, rok := be.Y.(*ast.Ident)
+	if !lok || !rok || !((l.Name == val.Name && r.Name == params[1]) || (r.Name == val.Name && l.Name == params[1])) {
+		return false
+	}
+	isRet := func(st ast.Stmt, v string) bool {
+		rt, ok := st.(*ast.ReturnStmt)
+		if !ok || len(rt.Results) != 1 {
+			return false
+		}
+		id, ok := rt.Results[0].(*ast.Ident)
+		return ok && id.Name == v
+	}
+	return isRet(iff.Body.List[0], "true") && isRet(fd.Body.List[1], "false")
 }
